@@ -4,7 +4,7 @@
 From Coq Require Import NArith Bool List Permutation Sorted.
 Import ListNotations.
 From XetModel Require Import Base.Codec Gen.ShardLayout Model.Merkle Model.Shard Proofs.CodecProofs Proofs.ShardProofs Proofs.SearchProofs Proofs.SetOpSortedProofs Proofs.ShardWholeProofs Proofs.ShardSizeProofs.
-From XetModel Require Import Proofs.StreamProofs.
+From XetModel Require Import Proofs.StreamProofs Proofs.FooterTotalsProofs.
 Open Scope N_scope.
 
 (* every fixed-width record codec round-trips (whatever field order the source uses, as long as
@@ -108,6 +108,20 @@ Theorem C09_streaming_walk_records_parse_back : forall files cass ctbl key creat
     /\ Forall2 (fun b c => parse_cas_info b = Some (Some c, [])) cb cass.
 Proof. exact stream_walk_records. Qed.
 
+
+(* the footer's totals: loaded back, the footer of a serialized shard reports exactly the sums over the records (bytes on disk
+   and bytes stored over the xorb records, materialized bytes over the segments of the file records), the record counts of
+   the lookup tables, the key and the times it was written with, and the offset at which it stands *)
+Theorem C09_footer_totals : forall files cass ctbl key created expiry, ShardOk files cass ctbl key created expiry ->
+  exists ft, load_footer (w_bs files cass ctbl key created expiry) = Some ft
+    /\ ft_ondisk ft = sum_ndisk cass /\ ft_stored ft = sum_nbytes cass /\ ft_materialized ft = sum_materialized files
+    /\ ft_file_lookup_num ft = N.of_nat (length (file_lookup_tbl files 0)) /\ ft_cas_lookup_num ft = N.of_nat (length (cas_lookup_tbl cass 0))
+    /\ ft_chunk_lookup_num ft = N.of_nat (length ctbl) /\ ft_key ft = key /\ ft_created ft = created /\ ft_expiry ft = expiry
+    /\ ft_footer_offset ft + 200 = N.of_nat (length (w_bs files cass ctbl key created expiry)).
+Proof. exact footer_totals. Qed.
+Theorem C09_lookup_table_lengths : forall files cass i j, length (file_lookup_tbl files i) = length files /\ length (cas_lookup_tbl cass j) = length cass.
+Proof. exact lookup_tbl_lengths. Qed.
+
 Print Assumptions C09_file_record_roundtrip.
 Print Assumptions C09_cas_record_roundtrip.
 Print Assumptions C09_file_section_scan.
@@ -120,3 +134,4 @@ Print Assumptions C09_absent_file_not_found.
 Print Assumptions C09_size_accounting_exact.
 Print Assumptions C09_streaming_walk_lists_all_records.
 Print Assumptions C09_streaming_walk_records_parse_back.
+Print Assumptions C09_footer_totals.
